@@ -29,9 +29,11 @@ def e_insert(rng, text, lang, protect_top=0):
     lo = max(2, protect_top + 1)
     inserts = rng.sample(range(lo, n + 1), min(rng.randint(1, 6), max(0, n - lo + 1)))
     # boundaries where an extra sibling matters most to a tree walker: right after a return / break / continue, right before a closing brace
-    hot = [i + 1 for i, ln in enumerate(lines, 1) if lo <= i + 1 <= n and (re.match(r"\s*(return|break|continue)\b", ln) or (i < n and lines[i].strip().startswith("}")))]
-    if hot and rng.random() < 0.6:
-        inserts += rng.sample(hot, min(len(hot), rng.randint(1, 3)))
+    after_jump = [i + 1 for i, ln in enumerate(lines, 1) if lo <= i + 1 <= n and re.match(r"\s*(return|break|continue)\b", ln)]
+    before_brace = [i + 1 for i, ln in enumerate(lines, 1) if lo <= i + 1 <= n and i < n and lines[i].strip().startswith("}")]
+    if rng.random() < 0.75:
+        inserts += [i for i in after_jump if rng.random() < 0.35]  # each of them on its own: a file has few, and each is a distinct situation
+        inserts += rng.sample(before_brace, min(len(before_brace), rng.randint(0, 2)))
     inserts = sorted(set(inserts))
     out, shift_at = [], []
     k = 0
